@@ -386,9 +386,8 @@ func newC18Target(quick bool) *c18Target {
 				if orig == 0 && (quick && o%32 != 0 || !quick && o%8 != 0) {
 					continue
 				}
-				// (orig+1 / orig-1: one more or one fewer than what the field says - a count one above its capacity, a length
-				// one beyond its buffer)
-				vals := []byte{0x00, 0x01, 0x7F, 0x80, 0xFF, orig ^ 0x01, orig ^ 0x80, orig + 1, orig - 1}
+				// (orig+1: one more than what the field says - a count one above its capacity, a length one beyond its buffer)
+				vals := []byte{0x00, 0x01, 0x7F, 0x80, 0xFF, orig ^ 0x01, orig ^ 0x80, orig + 1}
 				if quick {
 					vals = []byte{0x00, 0xFF, orig ^ 0x01, orig ^ 0x80, orig + 1}
 				}
